@@ -51,6 +51,8 @@ def tasks(tier, seed):
             T.append(('sweeper', M, 'implicit', True))  # G_inv installed with set_G_inv after construction
     for (M, L, alpha) in (((2, 2, 1e-2), (2, 3, 1e-4), (1, 3, 0.5), (3, 2, 1e-2), (2, 5, 1e-10), (1, 6, 1e-9)) if quick else ((2, 2, 1e-2), (2, 3, 1e-4), (1, 3, 0.9), (3, 2, 1e-2), (2, 4, 1e-3), (3, 3, 1e-6), (1, 5, 0.5), (2, 5, 1e-10), (1, 7, 1e-9), (1, 8, 1e-10), (2, 4, 1e-12))):
         T.append(('iteration', M, L, alpha))
+    for (M, L, alpha) in (((1, 2, 0.5), (2, 3, 1e-2), (1, 4, 1e-4)) if quick else ((1, 2, 0.5), (2, 3, 1e-2), (1, 4, 1e-4), (2, 5, 1e-6), (3, 4, 1e-3))):
+        T.append(('roundtrip', M, L, alpha))
     # an existing controller switched to another alpha (params.alpha + set_G_inv on every step) after it has been used
     for (M, L, alpha, first) in (((2, 3, 1e-1, 1e-4), (1, 4, 1e-3, 0.5)) if quick else ((2, 3, 1e-1, 1e-4), (1, 4, 1e-3, 0.5), (2, 4, 1e-6, 1e-2), (3, 2, 0.5, 1e-8))):
         T.append(('iteration', M, L, alpha, first))
@@ -67,6 +69,8 @@ def run_task(rep, task):
         diag_case(rep, task[1], task[2], reconf=(len(task) > 3 and bool(task[3])))
     elif task[0] == 'iteration':
         iteration_case(rep, *task[1:])
+    elif task[0] == 'roundtrip':
+        roundtrip_case(rep, *task[1:])
 
 
 def cbox(vs):
@@ -245,6 +249,57 @@ def one_iteration(ctl, u0, U):
     return [[ctl.MS[l].levels[0].u[m][0] for m in range(1, M + 1)] for l in range(L)]
 
 
+def roundtrip_case(rep, M, L, alpha):
+    """the data-level transforms of the real controller (FFT_in_time / iFFT_in_time on the step data, not only the helper matrices) are inverse to each
+    other on ARBITRARY COMPLEX data: forward then backward on symbolic complex residuals returns them (real and imaginary parts decided by the solver)"""
+    name = f'roundtrip/M{M}/L{L}/alpha{alpha:g}'
+    re = [[z3.Real(f'xr_{l}_{m}') for m in range(M)] for l in range(L)]
+    im = [[z3.Real(f'xi_{l}_{m}') for m in range(M)] for l in range(L)]
+    c = Ctx()
+    Ctx.cur = c
+    try:
+        ctl = build_ctl(M, L, alpha, -1.5, 0.2)
+        P = ctl.MS[0].levels[0].prob
+        for l, S in enumerate(ctl.MS):
+            for m in range(M):
+                x = P.dtype_u(P.init)
+                x[0] = SymComplex(re[l][m], im[l][m])
+                S.levels[0].residual[m] = x
+        for quantity in ('residual',):
+            ctl.FFT_in_time(quantity=quantity)
+            ctl.iFFT_in_time(quantity=quantity)
+        out = [[SymComplex.lift(ctl.MS[l].levels[0].residual[m][0]) for m in range(M)] for l in range(L)]
+    finally:
+        Ctx.cur = None
+    rep.paths += 1
+    condJ = float(alpha ** (-(L - 1) / L)) if alpha < 1 else 1.0
+    tol = rv(Fraction(1, 10**10) + Fraction(1, 10**13) * frac(condJ))
+    goal = []
+    for l in range(L):
+        for m in range(M):
+            goal += [out[l][m].re - re[l][m] <= tol, re[l][m] - out[l][m].re <= tol, out[l][m].im - im[l][m] <= tol, im[l][m] - out[l][m].im <= tol]
+    allv = [v for row in re + im for v in row]
+    res, m_ = prove(z3.And(goal), cbox(allv), timeout_ms=120000, name=f'{name}:backward-after-forward-is-identity-on-complex-data')
+    rep.ob(f'{name}:backward-after-forward-is-identity-on-complex-data', res)
+    if res == 'sat':
+        rep.replayed += 1
+        env = {str(v): float(model_value(m_, v)) for v in allv}
+        ctl = build_ctl(M, L, alpha, -1.5, 0.2, float_mode=True)
+        P = ctl.MS[0].levels[0].prob
+        for l, S in enumerate(ctl.MS):
+            for m in range(M):
+                x = P.dtype_u(P.init)
+                x[0] = complex(env[f'xr_{l}_{m}'], env[f'xi_{l}_{m}'])
+                S.levels[0].residual[m] = x
+        ctl.FFT_in_time(quantity='residual')
+        ctl.iFFT_in_time(quantity='residual')
+        dev = max(abs(complex(ctl.MS[l].levels[0].residual[m][0]) - complex(env[f'xr_{l}_{m}'], env[f'xi_{l}_{m}'])) for l in range(L) for m in range(M))
+        if dev > 1e-9 + 1e-12 * condJ:
+            rep.violation(f'{PID}/transforms-on-step-data/inverse', f'{name}: iFFT_in_time(FFT_in_time(x)) differs from x by {dev:.3e} on complex step data', {'task': ['roundtrip', M, L, alpha], 'env': env, 'deviation': dev})
+        else:
+            rep.unreproduced(name, {'dev': dev})
+
+
 def reconfigure(ctl, alpha):
     """switch an existing controller to another alpha the way the code provides for it: the parameter and the per-step solver factors"""
     L = len(ctl.MS)
@@ -354,6 +409,21 @@ def replay(path):
     if t[0] == 'iteration':
         dev = float_iteration(t[1], t[2], t[3], -1.5, 0.2, d['env'], t[4] if len(t) > 4 else None)
         print('deviation', dev)
+        bad = dev > 1e-7
+    elif t[0] == 'roundtrip':
+        M, L, alpha = t[1], t[2], t[3]
+        env = d['env']
+        ctl = build_ctl(M, L, alpha, -1.5, 0.2, float_mode=True)
+        P = ctl.MS[0].levels[0].prob
+        for l, S in enumerate(ctl.MS):
+            for m in range(M):
+                x = P.dtype_u(P.init)
+                x[0] = complex(env[f'xr_{l}_{m}'], env[f'xi_{l}_{m}'])
+                S.levels[0].residual[m] = x
+        ctl.FFT_in_time(quantity='residual')
+        ctl.iFFT_in_time(quantity='residual')
+        dev = max(abs(complex(ctl.MS[l].levels[0].residual[m][0]) - complex(env[f'xr_{l}_{m}'], env[f'xi_{l}_{m}'])) for l in range(L) for m in range(M))
+        print('deviation of backward(forward(x)) from x', dev)
         bad = dev > 1e-7
     else:
         print(d)
